@@ -421,8 +421,10 @@ Proof.
   destruct (getQ (parse_real (h_lower c)) 0 0) as [lo e1].
   destruct (getQ (parse_real (h_upper c)) 0 0) as [up e2].
   destruct (getQ (parse_real (h_width c)) 0 0) as [w e3].
-  destruct (Qle_bool w 0 || Qle_bool up lo); [cbn; split; [reflexivity|discriminate]|].
-  destruct (cast_int ((up - lo) / w) <=? 0) eqn:En; [cbn [r_uses r_err]; split; [reflexivity|discriminate]|].
+  destruct (Qle_bool w 0); [cbn; split; [reflexivity|discriminate]|].
+  destruct (Qle_bool up lo); [cbn; split; [reflexivity|discriminate]|].
+  destruct (Qle_bool (int_max # 1) ((up - lo) / w)); [cbn; split; [reflexivity|discriminate]|].
+  destruct (cast_int ((up - lo) / w) <? 1) eqn:En; [cbn [r_uses r_err]; split; [reflexivity|discriminate]|].
   cbn [r_uses r_err r_state]. split.
   - cbn [all_ok forallb u_ok]. rewrite andb_true_r. apply Z.ltb_lt. b2p. lia.
   - intro H. b2p. pose proof (cast_int_range ((up - lo) / w)). lia.
